@@ -608,6 +608,15 @@ fn cmd_check(a: &Args) -> i32 {
     }
     break;
     }
+    if prop == "C12" && exit == 0 && unconfirmed == 0 && !a.opts.contains_key("no-probe") {
+        if let Some(what) = props::c12::parallel_probe(seed, workers, &mut stats) {
+            println!(
+                "HARNESS-ERROR: verdict_depends_on_real_parallelism did not reproduce deterministically (seen by the real-parallel probe only, which nobody can replay): {}",
+                what
+            );
+            unconfirmed += 1;
+        }
+    }
     if exit == 0 && unconfirmed > 0 {
         exit = 2;
     }
